@@ -17,8 +17,8 @@ impl Check for C08Driver {
     }
     fn budget(&self, tier: Tier) -> u64 {
         match tier {
-            Tier::Quick => 6000,
-            Tier::Thorough => 150_000,
+            Tier::Quick => 30_000,
+            Tier::Thorough => 500_000,
         }
     }
     fn run(&self, ch: &mut Chooser, tier: Tier) -> RunOutcome {
